@@ -4,6 +4,11 @@
 package afpacket
 
 import (
+	"io"
+	"sync"
+	"syscall"
+	"time"
+
 	"github.com/google/gopacket"
 	afp "github.com/google/gopacket/afpacket"
 	"github.com/google/gopacket/layers"
@@ -12,16 +17,26 @@ import (
 	"golang.org/x/net/bpf"
 )
 
+// pollTimeout bounds how long a read blocks, so that a reader
+// notices a closed source (and a cancelled scan) without any traffic
+const pollTimeout = 100 * time.Millisecond
+
 type Source struct {
 	handle   *afp.TPacket
 	linkType layers.LinkType
+
+	// mu guards handle: Close unmaps the rx ring, it must not
+	// happen while a read is still polling or copying from it
+	mu     sync.RWMutex
+	closed bool
 }
 
 // Assert that AfPacketSource conforms to the packet.ReadWriter interface
 var _ packet.ReadWriter = (*Source)(nil)
 
 func NewPacketSource(iface string, vpnMode bool) (*Source, error) {
-	handle, err := afp.NewTPacket(afp.SocketRaw, afp.OptInterface(iface))
+	handle, err := afp.NewTPacket(afp.SocketRaw, afp.OptInterface(iface),
+		afp.OptPollTimeout(pollTimeout))
 	if err != nil {
 		return nil, err
 	}
@@ -29,7 +44,7 @@ func NewPacketSource(iface string, vpnMode bool) (*Source, error) {
 	if vpnMode {
 		linkType = layers.LinkTypeIPv4
 	}
-	return &Source{handle, linkType}, nil
+	return &Source{handle: handle, linkType: linkType}, nil
 }
 
 // maxPacketLength is the maximum size of packets to capture in bytes.
@@ -54,14 +69,35 @@ func (s *Source) SetBPFFilter(bpfFilter string, maxPacketLength int) error {
 }
 
 func (s *Source) Close() {
-	s.handle.Close()
+	s.mu.Lock()
+	defer s.mu.Unlock()
+	if !s.closed {
+		s.closed = true
+		s.handle.Close()
+	}
 }
 
 func (s *Source) ReadPacketData() ([]byte, *gopacket.CaptureInfo, error) {
-	data, ci, err := s.handle.ZeroCopyReadPacketData()
+	s.mu.RLock()
+	defer s.mu.RUnlock()
+	if s.closed {
+		return nil, nil, io.EOF
+	}
+	// the data is copied out of the rx ring, the ring can be
+	// unmapped by Close as soon as the lock is released
+	data, ci, err := s.handle.ReadPacketData()
+	if err == afp.ErrTimeout {
+		// nothing arrived within pollTimeout, the reader retries
+		err = syscall.EAGAIN
+	}
 	return data, &ci, err
 }
 
 func (s *Source) WritePacketData(pkt []byte) error {
+	s.mu.RLock()
+	defer s.mu.RUnlock()
+	if s.closed {
+		return io.ErrClosedPipe
+	}
 	return s.handle.WritePacketData(pkt)
 }
